@@ -297,6 +297,28 @@ def run_case(case):
     return out
 
 
+def _remove_dead_scratch(tag):
+    """Pool workers are terminated without running their exit handlers: the
+    parent removes the scratch directories of processes that no longer exist."""
+    import glob
+    import shutil as _shutil
+    base = os.path.dirname(runner.scratch_dir(tag + "probe"))
+    _shutil.rmtree(os.path.join(base, f"verif.{tag}probe.{os.getpid()}"), True)
+    for path in glob.glob(os.path.join(base, f"verif.{tag}.*")):
+        try:
+            pid = int(path.rsplit(".", 1)[1])
+            os.kill(pid, 0)
+        except (ValueError, ProcessLookupError):
+            _shutil.rmtree(path, True)
+        except PermissionError:
+            pass
+
+
+def finish(_tier, _totals):
+    _remove_dead_scratch("c01")
+    return {}
+
+
 def replay(case):
     progs, res = judge_block([case["prog"]])
     one = res[progs[0]["key"]]
